@@ -82,6 +82,8 @@ type Explorer struct {
 	FallbackName      string
 	FallbackTimeoutMs int
 	FallbackQueries   int
+	MaxViolations     int
+	StoppedEarly      bool
 
 	mu         sync.Mutex
 	frontier   [][]dec
@@ -242,6 +244,7 @@ type pathRun struct {
 	pcKey    uint64
 	pcKey2   uint64
 	pcTerms  []*Term
+	pcFP     bool
 	worker   *workerState
 	nondets  []NondetRec
 	choices  []string
@@ -371,9 +374,14 @@ func (p *pathRun) checkWith(c *Term) Result {
 	if ok {
 		return r
 	}
-	r = p.solver.CheckWith(c)
-	if r == Unknown {
+	if (c.FP || p.pcFP) && p.worker.fallback() != nil {
+		// floating-point queries go straight to the solver that decides them
 		r = p.fallbackCheck(c)
+	} else {
+		r = p.solver.CheckWith(c)
+		if r == Unknown {
+			r = p.fallbackCheck(c)
+		}
 	}
 	if r != Unknown {
 		qcMu.Lock()
@@ -406,6 +414,9 @@ func (p *pathRun) fallbackCheck(c *Term) Result {
 }
 
 func (p *pathRun) assertPC(t *Term) {
+	if t.FP {
+		p.pcFP = true
+	}
 	p.pcTerms = append(p.pcTerms, t)
 	p.solver.Assert(t)
 	p.pcKey = mix(p.pcKey, uint64(t.ID))
@@ -593,7 +604,11 @@ func (p *pathRun) checkAssert(label string, c *Term) {
 	} else {
 		p.solver.Push()
 		p.solver.Assert(tNot(c))
-		r = p.solver.Check()
+		if (c.FP || p.pcFP) && p.worker.fallback() != nil {
+			r = Unknown // let the floating-point capable solver decide (below)
+		} else {
+			r = p.solver.Check()
+		}
 	}
 	if r == Unknown {
 		var q *Term
@@ -705,6 +720,12 @@ func (ex *Explorer) addViolation(v *Violation) {
 	}
 	ex.vioKeys[v.Key] = true
 	ex.Violations = append(ex.Violations, v)
+	if ex.MaxViolations > 0 && len(ex.Violations) >= ex.MaxViolations && !ex.stopped {
+		// enough counterexamples to report: do not spend the budget on the rest
+		ex.stopped = true
+		ex.StoppedEarly = true
+		ex.cond.Broadcast()
+	}
 }
 
 // targetPanicked is called when a target panic escapes the harness.
